@@ -154,6 +154,21 @@ func init() {
 		"verifNative": func(fr *frame, args []value) value { return false },
 		"verifNativeLock":   func(fr *frame, args []value) value { return nil },
 		"verifNativeUnlock": func(fr *frame, args []value) value { return nil },
+		"verifBytesEqual": func(fr *frame, args []value) value {
+			a, b := args[0].([]value), args[1].([]value)
+			if len(a) != len(b) {
+				return false
+			}
+			var r value = true
+			for k := range a {
+				r = fr.i.andV(r, fr.i.equalsV(types.Typ[types.Uint8], a[k], b[k]))
+				if rb, ok := r.(bool); ok && !rb {
+					return false
+				}
+			}
+			fr.i.steps += int64(len(a) / 8)
+			return r
+		},
 		"verifNativeSleep": func(fr *frame, args []value) value { return nil },
 		"verifReach": func(fr *frame, args []value) value {
 			fr.i.reached[args[0].(string)]++
